@@ -12,7 +12,9 @@ CHECKS = {
     "C05": ("S", "model_checking",
             "Explicit-state BFS over all call sequences of a 32-operation alphabet (3 prefix-related pids, 2 contents, "
             "3 cids, all nine public methods) run to closure on the real FileHashStore; every transition is checked "
-            "against a reference model and an independent abstraction of the directory tree.",
+            "against a reference model and an independent abstraction of the directory tree. Alignment sweep: reference lists whose "
+            "line ends fall on EVERY character offset 1..10240 (filler pid of every length 1..1024 followed by 1024-character "
+            "lines; thorough: also with two-byte characters), audited after every one of 24 calls per list.",
             "Trusted: the reference model (written from the property text), the independent layout implementation, "
             "tmpfs semantics. Bounded by the alphabet; closure means every history of any length over it.",
             "explicit-state model checking of the implementation (BFS to fixpoint, reference-model oracle)", "4/C05"),
@@ -67,7 +69,10 @@ CHECKS.update({
             "real code; the observation includes a follow-up sequence (delete every pid) on the same instance and the state it "
             "leaves. Engine L: the same pairs plus pairs that are independent at file level, ONE pre-emption at every source "
             "line of the package (thorough: every bytecode for a selection). Thorough: all 55 pairs x 4 states, "
-            "pristine-directory variants, two-call programs and triples with pre-emption bound 2.",
+            "pristine-directory variants, two-call programs and triples with pre-emption bound 2. Three calls on ONE pid (every "
+            "multiset of store / store-other-content / tag / delete with a delete and a store or tag, from a bound pid; thorough: "
+            "all 20 multisets x 4 states), pre-emption bound 2. Thorough: for three scenarios every execution with at most TWO "
+            "pre-emptions at source-line granularity (engine L, second pre-emption at every event where the other thread can run).",
             "Trusted: the cooperative lock/condition/flock shims (validated by the self-test against the real primitives), "
             "the interposition layer, GIL atomicity between scheduling points. Known findings C07-R1, C07-R3 are listed "
             "by exact observation; anything else is a VIOLATION.",
@@ -76,7 +81,8 @@ CHECKS.update({
     "C11": ("S", "model_checking",
             "BFS to closure over store/retrieve/delete_metadata, delete_object and store_object on pids 'ab'/'a' with formats "
             "omitted / explicit default / 'c' / 'bc' and two document versions (one multi-buffer), checked against a "
-            "dictionary model; plus a size x argument-kind round-trip product.", S_NOTE,
+            "dictionary model; plus a size x argument-kind round-trip product, same-length updates within one timestamp tick, and "
+            "all ordered pairs of a 39-element format alphabet on one pid.", S_NOTE,
             "explicit-state model checking of the implementation (BFS to fixpoint, reference-model oracle)", "4/C11"),
     "C19": ("S", "model_checking",
             "For every state in the closure of a reduced alphabet (pids p/q, contents A/B) x target pid x content "
@@ -93,7 +99,9 @@ CHECKS.update({
             "Engine T: lock-heavy scenarios (same pid / cid / document, two waiters on one condition so the notify() wake-up "
             "choice is explored), every interleaving: no state without an enabled thread, all locked lists empty at the "
             "end, eight follow-up calls on the identifiers complete; four-call scenarios with two identifiers per condition "
-            "family (pre-emption bound 2). Engine F: an I/O error at every fault site of every "
+            "family (pre-emption bound 2); a READ-ONLY call (retrieve_object, get_hex_digest, retrieve_metadata) between two "
+            "writers of the same identifier (quick: 8 triples, thorough: the product of writers x readers x writers per family). "
+            "Engine F: an I/O error at every fault site of every "
             "call of the C13 table, then lists empty and follow-up calls on the same instance complete.",
             T_NOTE + " Triples are pre-emption bounded (2).",
             "stateless model checking under a controlled scheduler (deadlock = no enabled thread) + exhaustive "
@@ -122,12 +130,16 @@ CHECKS.update({
             "delete_object on one pid and one or two formats, document absent / present; linearizability oracle from "
             "sequential runs of the real code (including a follow-up delete-all on the same instance and the state it leaves); "
             "I9 on every step; engine L: every pair again with ONE pre-emption at every source line of the package. "
-            "Thorough adds triples (pre-emption bound 2) and bytecode granularity.",
+            "Directory listings are answered in sorted and, for every scenario in which a delete-all walks two or three documents, "
+            "in reverse order. Thorough adds triples (pre-emption bound 2), bytecode granularity and, for three scenarios, every "
+            "execution with at most TWO pre-emptions at source-line granularity.",
             T_NOTE, "stateless model checking under a controlled scheduler with a linearizability oracle", "4/C12"),
     "C13": ("F", "fault_enumeration",
             "Every stat of every call also fails once with EIO (existence probes); known findings C13-P1 / P2 / P3 by exact instance. "
-            "For 24 (call, starting state) cases: an OSError (EIO, ENOSPC, EACCES) at every create / open / rename / remove "
-            "/ mkdir / write / chmod / flock operation of the recorded trace, one-off and persistent for that path; oracle "
+            "For 30 (call, starting state) cases (two of them with directory listings reversed): an OSError (EIO, ENOSPC, EACCES) at "
+            "every create / open / rename / remove / mkdir / write / chmod / flock / close-of-a-written-file / directory-listing "
+            "operation of the recorded trace, one-off and persistent for that path; the retry after a failed store / tag runs on "
+            "a fresh instance AND on the instance that saw the failure; oracle "
             "from the statement (success only with the whole effect, failed store/tag leaves the pid unbound and storable "
             "again at once, failed store_metadata keeps the previous version, bystanders untouched).",
             "Trusted: the interposition layer; one fault per call. Known findings C13-P1 / C13-P2 (persistent faults on "
@@ -137,7 +149,9 @@ CHECKS.update({
             "Engine S: every transition of the C05 and C11 closures is executed in both synchronisation modes and must give "
             "the same outcome and the same tree (and satisfy the model). Engine T: C07 / C12 / C08 scenarios through the "
             "_mp code paths with one instance copy per 'process' and shared _mp primitives (unsynchronised accesses to the "
-            "shared lists are scheduling points), same oracles. Single I/O faults are injected in both modes and must give "
+            "shared lists are scheduling points; Manager().list() is modelled as a PROXY with the exposed methods of ListProxy only - "
+            "no __iter__, every round trip atomic on its own - and compared with the real proxy in the self-test), same oracles. "
+            "Single I/O faults are injected in both modes and must give "
             "the same outcome and state. A sampled conformance run with REAL forked processes must terminate with nothing locked.",
             T_NOTE + " Real forked processes and the real multiprocessing primitives are exercised only by the sampled "
             "conformance self-test. Mode at initialisation: several stores initialised in one interpreter with alternating "
@@ -153,7 +167,8 @@ CHECKS.update({
             "200 creation configurations x every reopening configuration differing in at most 2 coordinates (thorough: all "
             "200 x 200) x int/str encodings x empty/populated, plus unsupported and re-spelled algorithm names, missing / None "
             "/ extra keys, non-integers and store data without hashstore.yaml; accepted iff all four values equal; the "
-            "snapshot of the store's parent directory must not change.", E_NOTE,
+            "snapshot of the store's parent directory must not change. Namespaces: all ordered pairs (creation, reopening) of a "
+            "48-string alphabet of values a YAML parser reads as something else or a YAML writer must quote.", E_NOTE,
             "bounded-exhaustive enumeration of configuration pairs against an independent oracle", "4/C14"),
     "C15": ("E", "exploration",
             "120 stores (depth 1-6 x width 1-4 x 5 algorithms); after a fixed script the ENTIRE tree (paths and bytes) is "
@@ -168,12 +183,15 @@ CHECKS.update({
     "C18": ("E", "exploration",
             "All ordered pairs of a 43-element adversarial identifier alphabet through a 12-step script sharing one object, "
             "bystander checked after every step; every mutating file-system operation is recorded by the interposition "
-            "layer and must lie inside the root at a path made of hash tokens only.", E_NOTE,
+            "layer and must lie inside the root at a path made of hash tokens only. Formats: all ordered pairs of a 39-element "
+            "format alphabet (near misses of the default namespace, case variants, NFC / NFD / compatibility spellings, path-like, "
+            "3000-character strings) on one pid - documents never stand in for, overwrite or delete one another.", E_NOTE,
             "bounded-exhaustive enumeration of identifier pairs with a recorded-path containment oracle", "4/C18"),
     "C20": ("E", "exploration",
             "Every client verb x option subset x value kind executed through hashstoreclient.main() on one copy of a store "
             "and through the API on another; same outcome class, API values present in the output, equal abstract states; "
-            "create (-chs) over a configuration grid in both directions.", E_NOTE,
+            "create (-chs) over a configuration grid in both directions; option values padded with blanks / newline / tab reach the "
+            "API as given.", E_NOTE,
             "bounded-exhaustive differential enumeration client vs API", "4/C20"),
 })
 
@@ -222,8 +240,10 @@ def main():
                                "persistent-set reduction with verified footprints, linearizability oracle"},
             {"name": "L", "path": "hsverif/engine_l.py",
              "serves_properties": ["C01", "C02", "C07", "C12"],
-             "kind_free_text": "iterative context bounding at source-line / bytecode granularity, pre-emption bound 1: "
-                               "each thread is pre-empted at its n-th trace event for every n; same linearizability oracle"},
+             "kind_free_text": "iterative context bounding at source-line / bytecode granularity: each thread is pre-empted "
+                               "at its n-th trace event for every n (bound 1); thorough tier, selected scenarios: a second "
+                               "pre-emption at every later event of either thread where another thread can run (bound 2); "
+                               "same linearizability oracle"},
             {"name": "F", "path": "hsverif/engine_f.py",
              "serves_properties": ["C08", "C09", "C10", "C13"],
              "kind_free_text": "single-call recorder: crash image before every file-system operation, one injected "
